@@ -17,6 +17,7 @@ func c09New(a []V, k int) []byte {
 
 func init() {
 	Exec["bitstr.New"] = func(a []V) string { return Bytes(c09New(a, 0)) }
+	Exec["bitstr.New/decode"] = func(a []V) string { return Bytes(c09New(a, 0)) }
 	Exec["bitstr.Len"] = func(a []V) string { return I32(bitstr.Len(c09New(a, 0))) }
 	Exec["bitstr.Cmp"] = func(a []V) string {
 		return Int(bitstr.Cmp(c09New(a, 0), c09New(a, 3)))
@@ -137,6 +138,11 @@ func genC09(g *Gen) {
 			key = fmt.Sprintf("new/tmod%d/fal%v/empty%v/bytes%s", r.t%8, r.f%8 == 0, r.f == r.t, c08LenClass((r.t-r.f/8*8+7)/8))
 		}
 		g.Do("bitstr.New", L(r.args()), key)
+		if key != "" {
+			g.Do("bitstr.New/decode", L(r.args()), "dec/"+key)
+		} else {
+			g.Do("bitstr.New/decode", L(r.args()), "")
+		}
 		if key != "" {
 			key = "len/" + key
 		}
